@@ -617,14 +617,27 @@ func WrapLying(rt *rapid.T, parent *Box) string {
 	}
 	i := rapid.IntRange(0, len(parent.Kids)-1).Draw(rt, "wrap.from")
 	j := rapid.IntRange(i, len(parent.Kids)-1).Draw(rt, "wrap.to")
-	typ := rapid.SampledFrom([]string{"free", "skip", "zzzz", "iprp", "dinf", "uuid"}).Draw(rt, "wrap.type")
-	over := rapid.SampledFrom([]int64{1, 7, 8, 9, 100, 4096, 1 << 20, 1 << 30, -1, -8, -9}).Draw(rt, "wrap.over")
+	if rapid.IntRange(0, 3).Draw(rt, "wrap.none") == 0 {
+		j = i - 1 // the lying box holds none of the parent's children: it stands in front of child i
+	}
+	typ := rapid.SampledFrom([]string{"free", "skip", "zzzz", "iprp", "dinf", "uuid", "iref", "iref", "ipco", "grpl", "trak"}).Draw(rt, "wrap.type")
+	overs := []int64{1, 7, 8, 9, 100, 4096, 1 << 20, 1 << 30, -1, -8, -9}
+	over := rapid.SampledFrom(overs).Draw(rt, "wrap.over")
 	w := &Box{Type: typ, Kids: append([]*Box{}, parent.Kids[i:j+1]...), Overstate: over}
 	if typ == "uuid" {
 		w.Data = make([]byte, 16)
 	}
+	w.Full = typ == "iref"
+	desc := fmt.Sprintf("%s[%d..%d]%+d in %s", typ, i, j, over, parent.Type)
+	if rapid.Bool().Draw(rt, "wrap.nest") {
+		// the wrapper's first child lies as well: a reader that walks the wrapper's children meets a child it cannot close
+		c := &Box{Type: rapid.SampledFrom([]string{"dimg", "thmb", "cdsc", "auxl", "free", "ipma"}).Draw(rt, "wrap.ctype"), Overstate: rapid.SampledFrom(overs).Draw(rt, "wrap.cover"),
+			Data: make([]byte, rapid.SampledFrom([]int{0, 0, 4, 12}).Draw(rt, "wrap.clen"))}
+		w.Kids = append([]*Box{c}, w.Kids...)
+		desc += fmt.Sprintf(" first child %s%+d", c.Type, c.Overstate)
+	}
 	parent.Kids = append(append(append([]*Box{}, parent.Kids[:i]...), w), parent.Kids[j+1:]...)
-	return fmt.Sprintf("%s[%d..%d]%+d in %s", typ, i, j, over, parent.Type)
+	return desc
 }
 
 // HEIFWith embeds a TIFF payload in a HEIF file.
